@@ -231,6 +231,10 @@ def detector_strategy(draw, shape, steps, name="det0", kinds=("field", "energy",
         lo[ax], hi[ax] = p, p + 1
         d.update(lo=lo, hi=hi, direction=draw(st.sampled_from(["+", "-"])), reduce=draw(st.booleans()),
                  keep_all=draw(st.booleans()))
+        # the propagation axis is inferred from "exactly one axis of size 1" (documented precondition);
+        # when the drawn plane is degenerate in a transverse axis too, state the axis explicitly
+        if sum(hi[a] - lo[a] == 1 for a in range(3)) != 1 or draw(st.integers(0, 4)) == 0:
+            d["fixed_axis"] = ax
     else:
         lo, hi = draw(box_strategy(shape))
         d.update(lo=lo, hi=hi, reduce=draw(st.booleans()))
